@@ -1,4 +1,6 @@
 import Rustemo.Proofs.NoPanic
+import Rustemo.Proofs.GlrLayout
+import Rustemo.Proofs.GlrExample
 import Rustemo.Props.Example
 /-!
 # C15 — parsing is total: any input and lexer give Ok or Err, never a panic or hang
@@ -11,7 +13,9 @@ set.  `Cert.structural` and `Cert.total` are executable certificates run by the 
 dumped from the real compiler (for the layout automaton as well when the grammar has a Layout rule).
 
 NOT proved: termination (the model takes fuel; hangs are decided by the watchdog of the
-correspondence harness, known finding F14) and the whole GLR half (oracle on the real parser only).
+correspondence harness, known finding F14).  The GLR half (no panic) is `C15_glr_no_panic` below, a restatement of
+`C03_engine_no_panic_certified` (engine model `Glr.parse`, Model/Glr.lean, tied to `GlrParser::parse` by the C03
+correspondence).
 -/
 namespace Rustemo.Props.C15
 open Rustemo
@@ -57,5 +61,19 @@ theorem C15_lr_no_panic (env : Env) (hcert : Cert.lr env.g env.t = true)
 
 /-- non-vacuity: the certificate holds for a concrete table -/
 example : Cert.lr Example.env.g Example.env.t = true := by decide
+
+/-- **GLR half: `GlrParser::parse` never panics.**  The engine model `Glr.parse` (every `unwrap` / `expect` / index of
+    `glr/parser.rs` and `glr/gss.rs` is a `.panic site`, the nested LR layout parser included) reaches no panic site
+    on a table passing the executable certificates `Cert.glr` (structural certificate with right-nulled reduce
+    entries, nullable ranking, accessing symbols, `Cert.total`) and `Cert.glrLayout` (the layout automaton is covered
+    and total; trivially true without a Layout rule) — any input, recognizers, lexer, partial flag, fuel. -/
+theorem C15_glr_no_panic (env : Env) (hcert : Cert.glr env.g env.t = true)
+    (hlay : Cert.glrLayout env.g env.t = true) (partialParse : Bool) (fuel : Nat) :
+    ∀ site, Glr.parse env partialParse fuel ≠ .panic site :=
+  Glr.parse_no_panic env hcert (Glr.layoutSafe_of_cert env hcert hlay) partialParse fuel
+
+/-- non-vacuity: both certificates hold of the real LALR_RN table of `S: 'a' S A | EMPTY; A: 'a' | EMPTY` -/
+example : Cert.glr Glr.Example.g Glr.Example.t = true ∧ Cert.glrLayout Glr.Example.g Glr.Example.t = true := by
+  decide +kernel
 
 end Rustemo.Props.C15
